@@ -23,6 +23,12 @@ pub fn free_port() -> u16 {
         let l = TcpListener::bind(("127.0.0.1", 0)).expect("bind");
         let p = l.local_addr().unwrap().port();
         if UdpSocket::bind(("127.0.0.1", p)).is_ok() && TcpListener::bind(("::1", p)).is_ok() {
+            // never the same port twice in one run: trackers set SO_REUSEPORT, so two of them started side by
+            // side on one port would both come up and share the clients between them
+            static HANDED_OUT: std::sync::Mutex<Vec<u16>> = std::sync::Mutex::new(Vec::new());
+            let mut h = HANDED_OUT.lock().unwrap();
+            if h.contains(&p) { continue; }
+            h.push(p);
             return p;
         }
     }
@@ -49,8 +55,18 @@ impl Server {
         let s = Server { child, port, started: Instant::now(), timing: None };
         let t0 = Instant::now();
         if kind == "udp" {
-            // no way to probe a UDP socket without the protocol; the families send a connect and retry
-            std::thread::sleep(Duration::from_millis(300));
+            // up when a connect request is answered (or run() has returned: the caller looks at the exit line)
+            let mut s = s;
+            let probe = UdpSocket::bind("127.0.0.1:0").ok()?;
+            let _ = probe.set_read_timeout(Some(Duration::from_millis(40)));
+            let mut req = vec![0u8; 16];
+            req[..8].copy_from_slice(&0x41727101980u64.to_be_bytes());
+            while t0.elapsed() < Duration::from_secs(45) {
+                if let Ok(Some(_)) = s.child.try_wait() { return Some(s); }
+                let _ = probe.send_to(&req, ("127.0.0.1", port));
+                let mut b = [0u8; 64];
+                if let Ok((16, _)) = probe.recv_from(&mut b) { return Some(s); }
+            }
             return Some(s);
         }
         while t0.elapsed() < Duration::from_secs(45) {
